@@ -2627,6 +2627,47 @@ def ungroup_by_key(tree: ast.Module) -> bool:
     return changed
 
 
+def fold_callable_none_tests(tree: ast.Module) -> bool:
+    """`self.<method> is not None` / `<lambda> is None` / `<module function> is not None`: a bound method, a lambda and a
+    function defined in this module are never None - the test (left behind when a helper with an optional callable parameter was
+    inlined) folds to a constant. Only methods defined with `def` in the enclosing class or an inherited-by-name base in the
+    same module count, and only when no method of the class assigns the attribute."""
+    changed = False
+    mod_funcs = {n.name for n in tree.body if isinstance(n, (ast.FunctionDef, ast.AsyncFunctionDef))}
+    mod_assigned = {t.id for n in ast.walk(tree) if isinstance(n, (ast.Assign,)) for t in n.targets if isinstance(t, ast.Name)} | {n.target.id for n in ast.walk(tree) if isinstance(n, (ast.AugAssign, ast.AnnAssign)) and isinstance(n.target, ast.Name)}
+    for cls in [n for n in ast.walk(tree) if isinstance(n, ast.ClassDef)] + [None]:
+        if cls is not None:
+            meths = {m.name for m in cls.body if isinstance(m, (ast.FunctionDef, ast.AsyncFunctionDef)) and not any(_u(d).split(".")[-1] in ("property", "cached_property", "setter") for d in m.decorator_list)}
+            stored = {t.attr for m in ast.walk(cls) for t in ast.walk(m) if isinstance(t, ast.Attribute) and isinstance(t.ctx, (ast.Store, ast.Del))}
+            meths -= stored
+            scope = cls
+        else:
+            meths = set()
+            scope = tree
+
+        class _F(ast.NodeTransformer):
+            def visit_Compare(self, node):
+                nonlocal changed
+                self.generic_visit(node)
+                if len(node.ops) == 1 and isinstance(node.ops[0], (ast.Is, ast.IsNot)) and isinstance(node.comparators[0], ast.Constant) and node.comparators[0].value is None:
+                    x = node.left
+                    never_none = isinstance(x, ast.Lambda) or (isinstance(x, ast.Attribute) and isinstance(x.value, ast.Name) and x.value.id in ("self", "cls") and x.attr in meths) or (isinstance(x, ast.Name) and x.id in mod_funcs and x.id not in mod_assigned and cls is None)
+                    if never_none:
+                        changed = True
+                        return ast.copy_location(ast.Constant(value=isinstance(node.ops[0], ast.IsNot)), node)
+                return node
+
+        if cls is not None:
+            for m in cls.body:
+                if isinstance(m, (ast.FunctionDef, ast.AsyncFunctionDef)):
+                    _F().visit(m)
+        else:
+            for m in tree.body:
+                if isinstance(m, (ast.FunctionDef, ast.AsyncFunctionDef)):
+                    _F().visit(m)
+    return changed
+
+
 def normalize_module(tree: ast.Module, max_rounds: int = 6, returns_arg: dict | None = None, foreign_refs: set | None = None, foreign_defs: set | None = None, inherited: dict | None = None) -> ast.Module:
     for _ in range(max_rounds):
         bn = BlockNormalizer()
@@ -2646,6 +2687,8 @@ def normalize_module(tree: ast.Module, max_rounds: int = 6, returns_arg: dict | 
         if ungroup_by_key(tree):
             bn.changed = True
         if unnest_self_calls(tree):
+            bn.changed = True
+        if fold_callable_none_tests(tree):
             bn.changed = True
         if separate_returned_argument(tree, returns_arg or {}):
             bn.changed = True
